@@ -1,5 +1,6 @@
 import LyModel.Props.C15
 import LyModel.Path.LemmasTyped
+import LyModel.Path.LemmasCreate
 /-!
 # C15 with typed keys — predicate values are values of the key's type, not text
 
@@ -16,6 +17,11 @@ open LyModel LyModel.Path LyModel.Props.C15
 def errOf {α : Type} : Except Err α → Option Err
   | .error e => some e
   | .ok _ => none
+
+theorem toOption_some {ε α : Type} {x : Except ε α} {a : α} (h : x.toOption = some a) : x = .ok a := by
+  cases x with
+  | error e => cases h
+  | ok b => simp [Except.toOption] at h; rw [h]
 
 /-! ## the types -/
 
@@ -279,17 +285,81 @@ def afAlt2Steps : List CStep :=
             ([97, 100, 100, 114, 101, 115, 115], [98, 51, 32, 32, 98, 49])]⟩,
    ⟨[109, 97], [118], .leaf false, [], .none⟩]
 
-theorem toOption_some {ε α : Type} {x : Except ε α} {a : α} (h : x.toOption = some a) : x = .ok a := by
-  cases x with
-  | error e => cases h
-  | ok b => simp [Except.toOption] at h; rw [h]
-
 /-- non-vacuity: `new_path_typed_canonical` instantiated at the respelled path — it finds `v` and cannot create it again -/
 example : findPathT afSchema afTree afPathAlt2 = .ok [0, 1, 2] ∧ ∀ v, newPathT afSchema afTree afPathAlt2 v = .error .exists := by
   have h := new_path_typed_canonical afSchema afTree [0, 1, 2] afLevels af_chainOK
     (ValuesOK.mono (fun _ _ h => h.self) _ _ af_valuesOK) afPathAlt2 afAlt2Steps
     (fun single => toOption_some (by cases single <;> decide +kernel)) (toOption_some (by decide +kernel))
   exact ⟨h.1, h.2 (by decide)⟩
+
+/-! ## create, then find -/
+
+/-- **new_path_then_find.** For EVERY path `q` that compiles (with typed predicates) to well-formed segments `cs` — no duplicate-instance
+    nodes, every keyed list with key predicates whose names are distinct keys of the list (`stepWF`: the lemma about compiled key lists),
+    every leaf-list with its value predicate, a key leaf only below the list that has it as a predicate (`chainWF`) — however the values
+    are spelled: if `lyd_new_path2(NULL, ctx, q, v)` succeeds, it creates the whole chain at the top level, `lyd_find_path` with the same
+    path on the created tree finds a node, and a second `lyd_new_path(created, q, v)` reports `LY_EEXIST`. -/
+theorem new_path_then_find (sch : List TSNode) (q v : Bytes) (cs : List CStep) (hc : ∀ single, compilePathT sch single q = .ok cs)
+    (hwf : chainWF cs = true) (c : Created) (h : newPathT sch [] q v = .ok c) :
+    c.parent = [] ∧ (∃ a, findPathT sch [c.chain] q = .ok a) ∧ newPathT sch [c.chain] q v = .error .exists := by
+  have hall := chainWF_all cs hwf
+  -- what the first call did: `newPathC [] cs k` for the key `k` of the stored value (or no value)
+  have hk : ∃ k, newPathC [] cs k = .ok c ∧ newPathT sch [c.chain] q v = newPathC [c.chain] cs k := by
+    simp only [newPathT, hc false] at h ⊢
+    split at h
+    · cases h
+    · simp only [List.isEmpty_cons, Bool.false_and, Bool.false_eq_true, if_false]
+      cases hl : lastUse sch cs with
+      | ignored => rw [hl] at h; exact ⟨[], h, rfl⟩
+      | atCheck s =>
+        rw [hl] at h
+        simp only [checkFind_chainWF [] cs 0 hall] at h ⊢
+        cases hs : storeVia s v with
+        | error e => rw [hs] at h; cases h
+        | ok key => rw [hs] at h; exact ⟨key, h, rfl⟩
+      | atCreate s =>
+        rw [hl] at h
+        simp only at h ⊢
+        cases hs : storeVia s v with
+        | ok key => rw [hs] at h; exact ⟨key, h, rfl⟩
+        | error e =>
+          rw [hs] at h
+          simp only at h
+          split at h <;> cases h
+  obtain ⟨k, hk1, hk2⟩ := hk
+  rw [newPathC_empty k cs hwf] at hk1
+  cases hn : createChain k cs with
+  | none => rw [hn] at hk1; cases hk1
+  | some n =>
+    rw [hn] at hk1
+    cases hk1
+    obtain ⟨hex, a, ha⟩ := newPathC_created k cs n hwf hn
+    exact ⟨rfl, ⟨a, by simp only [findPathT, hc true, ha]⟩, by rw [hk2]; exact hex⟩
+
+/-- non-vacuity: the respelled, reordered path `afPathAlt` in an empty tree, then on what it created — and the same for the key leaf
+    `/ma:c/m[address-family='+7'][address='b1']/address` -/
+example : ∃ c, newPathT afSchema [] afPathAlt [43, 52, 50] = .ok c ∧ c.parent = [] ∧
+    (∃ a, findPathT afSchema [c.chain] afPathAlt = .ok a) ∧ newPathT afSchema [c.chain] afPathAlt [43, 52, 50] = .error .exists := by
+  cases hn : newPathT afSchema [] afPathAlt [43, 52, 50] with
+  | error e =>
+    have : (newPathT afSchema [] afPathAlt [43, 52, 50]).toOption.isSome = true := by decide +kernel
+    rw [hn] at this; cases this
+  | ok c =>
+    have hcs : ∀ single, ∃ cs, compilePathT afSchema single afPathAlt = .ok cs ∧ chainWF cs = true ∧
+        compilePathT afSchema true afPathAlt = .ok cs ∧ compilePathT afSchema false afPathAlt = .ok cs := by
+      intro single
+      cases hcp : compilePathT afSchema true afPathAlt with
+      | error e =>
+        have : (compilePathT afSchema true afPathAlt).toOption.isSome = true := by decide +kernel
+        rw [hcp] at this; cases this
+      | ok cs =>
+        have h1 : (compilePathT afSchema true afPathAlt).toOption.map chainWF = some true := by decide +kernel
+        have h2 : (compilePathT afSchema false afPathAlt).toOption = (compilePathT afSchema true afPathAlt).toOption := by decide +kernel
+        rw [hcp] at h1 h2
+        have hf : compilePathT afSchema false afPathAlt = .ok cs := toOption_some (by simpa [Except.toOption] using h2)
+        refine ⟨cs, by cases single <;> assumption, by simpa [Except.toOption] using h1, rfl, hf⟩
+    obtain ⟨cs, _, hwf, ht, hf⟩ := hcs true
+    exact ⟨c, rfl, new_path_then_find afSchema afPathAlt [43, 52, 50] cs (fun single => by cases single <;> assumption) hwf c hn⟩
 
 /-! ## key names are whole names; key order is free -/
 
